@@ -100,7 +100,10 @@ def _file_write(eng, e, st, args, kw):
 
 
 def _codecs_open(eng, e, st, args, kw):
-    return PObj(OUTFILE_CLS, {'text': ZV(TStr, T.S_EMPTY, ''), 'name': args[0]})
+    mode = args[1] if len(args) > 1 else kw.get('mode')
+    if isinstance(mode, ZV) and mode.pyval == 'w':
+        return PObj(OUTFILE_CLS, {'text': ZV(TStr, T.S_EMPTY, ''), 'name': args[0]})
+    return B._open(eng, e, st, args, kw)
 
 
 def install(eng):
